@@ -430,6 +430,7 @@ typedef struct {
 	int mismatch_key;         /* server: private key that does not match the chain; client: same for the client certificate */
 	/* hooks for property-specific configuration just before reset */
 	unsigned min_ch_len;       /* client: br_ssl_client_set_min_clienthello_len (0 = no padding) */
+	int profile;               /* server: 0 = br_ssl_server_init_full_*; 1..7 = init_mine2c, mine2g, minf2c, minf2g, minr2g, minu2g, minv2g (the key kind must fit) */
 	void (*pre_reset)(void *ep, void *arg);
 	void *pre_reset_arg;
 } tp_cfg;
@@ -529,7 +530,15 @@ tp_ep_start(tp_ep *ep, const tp_cfg *cfg)
 			ep->eng = &ep->sc->eng;
 			size_t chn;
 			const br_x509_certificate *chp = tp_chain_pick(1, cfg->keykind, 0, cfg->use_ec384, cfg->chain_kind, &chn);
-			switch (cfg->keykind) {
+			switch (cfg->profile ? 100 + cfg->profile : cfg->keykind) {
+			/* the minimal profiles of the library, as they are (TLS 1.2, one suite, SHA-256 only) */
+			case 101: br_ssl_server_init_mine2c(ep->sc, chp, chn, &tp_fx.srv_rsa.rsa); break;
+			case 102: br_ssl_server_init_mine2g(ep->sc, chp, chn, &tp_fx.srv_rsa.rsa); break;
+			case 103: br_ssl_server_init_minf2c(ep->sc, chp, chn, cfg->keykind == TP_KEY_ECEC ? &tp_fx.srv_ecec.ec : &tp_fx.srv_ecrsa.ec); break;
+			case 104: br_ssl_server_init_minf2g(ep->sc, chp, chn, cfg->keykind == TP_KEY_ECEC ? &tp_fx.srv_ecec.ec : &tp_fx.srv_ecrsa.ec); break;
+			case 105: br_ssl_server_init_minr2g(ep->sc, chp, chn, &tp_fx.srv_rsa.rsa); break;
+			case 106: br_ssl_server_init_minu2g(ep->sc, chp, chn, &tp_fx.srv_ecrsa.ec); break;
+			case 107: br_ssl_server_init_minv2g(ep->sc, chp, chn, &tp_fx.srv_ecec.ec); break;
 			case TP_KEY_RSA:
 				br_ssl_server_init_full_rsa(ep->sc, chp, chn,
 					cfg->mismatch_key ? &tp_fx.other_rsa.rsa : &tp_fx.srv_rsa.rsa);
